@@ -14,7 +14,7 @@ CLASSES = {
   'SharedSinkProvider': dict(path='SharedSinkProvider', bases=['SinkProviderBase'], fields={
     '_key_selector': 'KeySelector', '_cache': 'dict[any,RefCountedSink]'}),
   'ClientTimeoutSink': dict(path='ClientTimeoutSink', bases=['ClientMessageSink'], fields={}),
-  'FailingMessageSink': dict(path='FailingMessageSink', bases=['ClientMessageSink'], fields={'_ex': 'ExcFactory'}),
+  'FailingMessageSink': dict(path='FailingMessageSink', bases=['Channel'], fields={'_ex': 'any'}),
   'ExcFactory': dict(extern=True, path=None, fields={}, bases=[]),
   'TimeoutError': dict(file='scales/message.py', path='TimeoutError', bases=[], fields={}),
   'KeySelector': dict(extern=True, path=None, fields={}, bases=[]),
@@ -181,10 +181,14 @@ FUNCTIONS = {
     ghost=[{'before': 'sink_stack.AsyncProcessResponse(stream, msg)', 'do': ['g_fwd = 1', 'prove(context.g_calls == old(context.g_calls) + 1, "timer-cancelled-before-forwarding")']}],
     props=['C01'],
   ),
+  'FailingMessageSink.__init__': dict(
+    cls='FailingMessageSink', inline=True,
+    # the sink calls self._ex() for every request: it must be given an exception *factory*
+    ghost=[{'before': 'self._ex = ex', 'do': ['prove(callable(ex), "exception-factory-is-callable")']}]),
   'FailingMessageSink.AsyncProcessRequest': dict(
     cls='FailingMessageSink',
     params={'sink_stack': 'ClientMessageSinkStack', 'msg': 'Message', 'stream': 'any', 'headers': 'any'},
-    requires=[], ensures=[],
+    requires=['callable(self._ex)'], ensures=[],
     modifies=['deque[tuple[AnySink,any]]', 'AnySink.g_invoked', 'MethodReturnMessage.error',
               'MethodReturnMessage.return_value', 'MethodReturnMessage.stack', '$cls'],
     allocates=True,
@@ -201,7 +205,8 @@ EXTERNS = {
                                        ensures=['result.error == error and result.return_value == return_value',
                                                 'forall_ref(m, MethodReturnMessage, implies(m != result, m.error == old(m.error) and m.return_value == old(m.return_value)), m.error)']),
   'TimeoutError.__init__': dict(params=[], returns='TimeoutError', fresh=True, allocates=True),
-  'ExcFactory.__call__': dict(params=[], returns='any', ensures=['result is not None'], allocates=True),
+  '<call>': dict(params=[], varargs=True, returns='any', ensures=['result is not None'], allocates=True,
+                 notes='calling an opaque callable value (exception factory): returns a new object'),
   'Callable0.__call__': dict(params=[], modifies=['Callable0.g_calls', 'TimerEntry.cancelled', 'TimerEntry.action'],
                              ensures=['self.g_calls == old(self.g_calls) + 1'],
                              notes='the context callable stored with a stack entry (timer cancel closure / balancer release closure)'),
